@@ -1051,13 +1051,19 @@ class Hdf5Loader:
 
     dispatch_load[REPR_MASKED_ARRAY] = (load_masked_array, REPR_MASKED_ARRAY)
 
+    def _load_item(self, h5gr, subpath, i):
+        """Load entry `i` of a list, set or tuple; an :class:`Hdf5Ignored` entry was counted but not saved."""
+        if str(i) not in h5gr:
+            return Hdf5Ignored(subpath + str(i))
+        return self.load(subpath + str(i))
+
     def load_list(self, h5gr, type_info, subpath):
         """Load a list."""
         obj = []
         self.memorize_load(h5gr, obj)
         length = self.get_attr(h5gr, ATTR_LEN)
         for i in range(length):
-            sub_obj = self.load(subpath + str(i))
+            sub_obj = self._load_item(h5gr, subpath, i)
             obj.append(sub_obj)
         return obj
 
@@ -1069,7 +1075,7 @@ class Hdf5Loader:
         self.memorize_load(h5gr, obj)
         length = self.get_attr(h5gr, ATTR_LEN)
         for i in range(length):
-            sub_obj = self.load(subpath + str(i))
+            sub_obj = self._load_item(h5gr, subpath, i)
             obj.add(sub_obj)
         return obj
 
@@ -1085,7 +1091,7 @@ class Hdf5Loader:
         # It's hopefully not relevant for our applications.
         length = self.get_attr(h5gr, ATTR_LEN)
         for i in range(length):
-            sub_obj = self.load(subpath + str(i))
+            sub_obj = self._load_item(h5gr, subpath, i)
             obj.append(sub_obj)
         # now convert the list to tuple
         obj = tuple(obj)
